@@ -69,6 +69,7 @@ def cases(draw):
       'bounds': draw(st.sampled_from(['default', 'default', 'min_bites', 'max_bites', 'both'])),
       'bound_frac': draw(_f(0.1, 0.9)), 'jit': draw(st.booleans()),
       'max_abs': draw(st.one_of(st.none(), _f(0.1, 3.0))),
+      'int_dtype': draw(st.sampled_from(['int32', 'bool', 'uint8', 'int32'])),
   }
 
 
@@ -80,7 +81,8 @@ def build(c):
     u = np.where(np.array(lf['const'])[None, :], 0.25, u)
     x = np.array(lf['offset'])[None, :] + lf['scale'] * u
     data.append(x.reshape([c['n']] + lf['shape']))
-  ints = None if c['int_leaf'] is None else np.array(c['int_leaf'], np.int32).reshape(c['n'], 2)
+  idt = {'int32': np.int32, 'bool': np.bool_, 'uint8': np.uint8}[c.get('int_dtype', 'int32')]
+  ints = None if c['int_leaf'] is None else (np.abs(np.array(c['int_leaf'])) % (2 if idt is np.bool_ else 6)).astype(idt).reshape(c['n'], 2) if idt is not np.int32 else np.array(c['int_leaf'], np.int32).reshape(c['n'], 2)
   return data, ints
 
 
@@ -120,7 +122,7 @@ def check(c):
   nleaf = len(data)
   w_all = None if c['weights'] is None else np.array(c['weights'], float)
   spec = pack(kind, [np.zeros(lf['shape']) for lf in c['leaves']],
-              None if ints is None else np.zeros((2,), np.int32), jp)
+              None if ints is None else np.zeros((2,), ints.dtype), jp)
   state = rs.init_state(spec)
   maxabs = [max(1e-12, float(np.max(np.abs(x)))) for x in data]
   # std bounds: computed from the true final std so that they really bite
@@ -210,7 +212,7 @@ def check(c):
   if ints is not None:
     for name, leaf in (('normalize', ni), ('denormalize', bi_)):
       a = np.asarray(leaf)
-      if a.dtype != np.int32 or not np.array_equal(a, ints[:5]):
+      if a.dtype != ints.dtype or not np.array_equal(a, ints[:5]):
         raise Violation('int_leaf', f'{name} changed the integer leaf (dtype {a.dtype})')
   if c['max_abs'] is not None:
     nrm2 = rs.normalize(xs, state, max_abs_value=c['max_abs'])
@@ -226,7 +228,7 @@ def check(c):
   if any(any(lf['const']) for lf in c['leaves']):
     labels.append('constant_column')
   if ints is not None:
-    labels.append('int_leaf')
+    labels.append('nonfloat_leaf:' + str(ints.dtype))
   return dict(fp=fingerprint(c), nontrivial=bool(nontrivial), labels=labels, evals=len(sizes),
               sample={'kind': kind, 'n': n, 'batch_sizes': sizes, 'leaf_shapes': [lf['shape'] for lf in c['leaves']],
                       'scales': [lf['scale'] for lf in c['leaves']], 'weighted': w_all is not None,
